@@ -97,7 +97,11 @@ def run(ctx):
                 continue
             if not dump["imported"]:
                 m = re.match(r"(\w+): (.{0,60})", dump["error"])
-                ctx.violation("import|%s|%s" % (m.group(1) if m else "?", (m.group(2) if m else dump["error"])[:60]),
+                what = (m.group(2) if m else dump["error"])[:60]
+                if m and m.group(1) == "PyCompileError":       # the message starts with the file name: key on the offending line
+                    ls = [x.strip() for x in dump["error"].split("\n") if x.strip() and not x.strip().startswith(("File ", "^"))]
+                    what = " / ".join(ls[-2:])[:80]
+                ctx.violation("import|%s|%s" % (m.group(1) if m else "?", what),
                               "generated module cannot be %s: %s" % ("imported" if dump["compiled"] else "compiled", dump["error"][:300]),
                               {"choice": c["choice"], "input": txt, "error": dump["error"]})
                 continue
